@@ -1673,6 +1673,10 @@ class Container:
         stored_decimals = sum(abs(Unit.convert_from(substance, 10 ** -config.internal_precision,
                                                     'U' if substance.is_enzyme() else config.moles_storage_unit,
                                                     quantity_unit)) for substance in self.contents)
+        # (... nor, for a target by volume, one stored digit of a volume: what a transfer moved is known no better than
+        # the volumes it was computed from - 1e-10 L is 4e-7 of a 250 uL stock)
+        if quantity_unit == 'L':
+            stored_decimals += Unit.convert_from_storage(10 ** -config.internal_precision, 'L')
         if (round(Unit.convert(solvent, f"{required_quantity} {quantity_unit}", solvent_unit),
                   config.internal_precision) < 0
                 and round(required_quantity / quantity, config.internal_precision) < 0
